@@ -487,7 +487,9 @@ func Binop(op string, a, b Value) (v Value, err *OpErr, unspec string) {
 
 func (in *interp) binop(e *gen.Expr, a, b Value) Value {
 	v, oe, unspec := Binop(e.T, a, b)
-	if unspec != "" {
+	if unspec != "" && !strings.Contains(in.unspec, "repetition") {
+		// a repetition beyond the memory bound is the stronger reason (such a
+		// program must not be executed at all): it is never replaced by another
 		in.unspec = unspec
 	}
 	if oe != nil {
